@@ -12,7 +12,7 @@ CONSTANTS
   Record = FALSE
   Defect_NoArmOnSync = FALSE
   Defect_TakeoverKeepsOrigin = FALSE
-  Defect_ClientSetBeforeOwner = TRUE
+  Defect_ClientSetBeforeOwner = FALSE
 VIEW StateView
 CONSTRAINT NoRange
 INVARIANTS CountsMatch HealthyCountsMatch PerpetualMatches IndexedOnce ClientSetSound ClientSetComplete ArmedHealthy ArmedUnhealthy
